@@ -13,6 +13,8 @@ typedef boost::adjacency_list<boost::vecS, boost::vecS, boost::undirectedS, boos
         boost::property<boost::edge_weight_t, int>> IGraph;
 typedef boost::adjacency_list<boost::vecS, boost::vecS, boost::undirectedS, boost::no_property,
         boost::property<boost::edge_weight_t, long long>> LGraph;      // 64-bit integer weights (values above 2^53 are not doubles)
+typedef boost::adjacency_list<boost::vecS, boost::vecS, boost::undirectedS, boost::no_property,
+        boost::property<boost::edge_weight_t, unsigned long>> UGraph;  // unsigned integer weights (differences of distances wrap around)
 
 template<class G> struct GCase {
     typedef typename boost::graph_traits<G>::edge_descriptor Edge;
@@ -51,4 +53,5 @@ inline std::string exact_weight(double x, int scale) {
 }
 inline std::string exact_weight(int x, int) { return std::to_string(x); }
 inline std::string exact_weight(long long x, int) { return std::to_string(x); }
+inline std::string exact_weight(unsigned long x, int) { return std::to_string(x); }
 #endif
